@@ -58,7 +58,8 @@ def parse_verdict(v):
 
 
 def signature(fn, reason):
-    """small structured key: entry point, normalised kind, first GEOS stack frame"""
+    """small structured key: entry point and normalised kind (the first GEOS stack frame is kept in the replay file as
+    `where`, but is not part of the key: one defect class shows up under many frames)"""
     where = ""
     kind = reason
     if "@" in reason:
@@ -66,11 +67,17 @@ def signature(fn, reason):
     kind = re.sub(r"^crash:", "", kind)
     kind = re.sub(r":[-\d\[\], :]*$", "", kind)            # srid values, id lists
     kind = re.sub(r"(illegal-for-model|result-ids-differ|result-aliases-live-object|const-or-unrelated-object-modified).*", r"\1", kind)
-    return {"fn": fn, "kind": kind, "where": where}
+    if where == "harness":
+        kind = "harness-internal:" + kind
+    return {"fn": fn, "kind": kind}
+
+
+def where_of(reason):
+    return reason.split("@", 1)[1] if "@" in reason else ""
 
 
 def is_tie(sig):
-    return any(sig["kind"].startswith(t) for t in TIE_KINDS) or sig["where"] == "harness"
+    return any(sig["kind"].startswith(t) for t in TIE_KINDS) or sig["kind"].startswith("harness-internal")
 
 
 def split_calls(line):
@@ -215,9 +222,10 @@ def report_failure(ctx, runner, line, verdict, seen, origin):
     else:                                               # budget exhausted: the observed sequence itself is the replay
         script, obs, v2, err = line, line, verdict, ""
     calls = [pretty(c) for c in split_calls(obs)]
-    desc = "%s: %s%s" % (fn, sig["kind"], (" in " + sig["where"]) if sig["where"] else "")
+    where = where_of(reason)
+    desc = "%s: %s%s" % (fn, sig["kind"], (" in " + where) if where else "")
     ctx.violation("legal call sequence not contained — " + desc,
-                  {"kind": "failing-input", "stream": "api-seq", "signature": sig, "script": script, "observed": obs, "verdict": v2,
+                  {"kind": "failing-input", "stream": "api-seq", "signature": sig, "where": where, "script": script, "observed": obs, "verdict": v2,
                    "failing_call": (calls[parse_verdict(v2)[0] + 1] if parse_verdict(v2) and 0 <= parse_verdict(v2)[0] + 1 < len(calls) else ""),
                    "readable": calls, "sanitizer_report": err[:4000], "origin": origin,
                    "replay_cmd": "bin/check C12 --replay <this file>   (or: %s replay <file with the script line> -v)" % runner.exe},
@@ -259,6 +267,48 @@ def table_violators():
         if names:
             res[m.group(1)] = names
     return res, out
+
+
+# ----------------------------------------------------------------------------- deterministic corpus
+
+CORPUS = os.path.join(verif.REPLAYS, "known-C12-final.json")
+
+
+def run_corpus(ctx, runner, seen):
+    """The shrunk replay script of every recorded finding (known or fixed) runs first on every run, independent of
+    VERIF_SEED: fixed defects are re-tested for regression, known ones print their KNOWN-FINDING line."""
+    info = {"file": CORPUS, "scripts": 0, "still_failing_known": 0, "fixed_ok": 0, "fixed_REGRESSED": 0, "known_not_reproduced": []}
+    if not os.path.exists(CORPUS):
+        info["note"] = "no corpus file"
+        return info
+    try:
+        entries = json.load(open(CORPUS))
+        entries = entries.get("findings", entries) if isinstance(entries, dict) else entries
+    except ValueError as ex:
+        ctx.violation("corpus file %s is not valid JSON: %s" % (CORPUS, ex), {"kind": "tie-broken", "file": CORPUS}, nofail=True)
+        return info
+    entries = [e for e in entries if e.get("property", "C12") == "C12" and e.get("replay")]
+    info["scripts"] = len(entries)
+    if not entries:
+        return info
+    lines, verdicts, _ = runner.replay([e["replay"] for e in entries])
+    if len(lines) != len(entries):
+        ctx.violation("corpus replay returned %d lines for %d scripts" % (len(lines), len(entries)),
+                      {"kind": "tie-broken", "correspondence": "corpus"}, nofail=True)
+        return info
+    for e, line, v in zip(entries, lines, verdicts):
+        if v == "ok":
+            if e.get("status") == "fixed":
+                info["fixed_ok"] += 1
+            else:
+                info["known_not_reproduced"].append(e.get("signature"))
+            continue
+        if e.get("status") == "fixed":
+            info["fixed_REGRESSED"] += 1
+        else:
+            info["still_failing_known"] += 1
+        report_failure(ctx, runner, line, v, seen, "corpus (%s finding %s)" % (e.get("status"), json.dumps(e.get("signature"))))
+    return info
 
 
 # ----------------------------------------------------------------------------- the check
@@ -329,6 +379,8 @@ def run(ctx):
     if missing:
         ctx.violation("entry points called by the harness are not in the generated table: %s" % missing[:8],
                       {"kind": "tie-broken", "missing": missing}, nofail=True)
+    seen = {}
+    ctx.cov["support_correspondence"]["corpus"] = run_corpus(ctx, runner, seen)
     n = 640 if quick else 12000
     if os.environ.get("C12_N"):                      # test aid
         n = int(os.environ["C12_N"])
@@ -348,7 +400,6 @@ def run(ctx):
                                                     "distribution": dist}
     ctx.cov["samples"] += [{"case": s["case"][:300], "impl": s["impl"], "model": s["model"]} for s in r.get("samples", [])[:2]]
     found_for = set()
-    seen = {}
     if r["error"]:
         ctx.violation("correspondence stream api-seq could not run: %s" % r["error"][:500],
                       {"kind": "tie-broken", "correspondence": "api-seq", "detail": r["error"]}, nofail=True)
